@@ -32,7 +32,7 @@ func init() {
 			"oracle: documented sentinel error (either when two rules apply), full observation identical before/after; valid boundary inputs (+-MaxIndexable, its inner neighbours, -0, weight 0 and -0) accepted; constructors over finite parameters return an error or a usable object, never (nil,nil). " +
 			"Non-trivial = non-empty sketch state and >=10 refused calls; distinct = hash of state and calls.",
 		Cases:     core.Scale(40000, 1000000),
-		Mandatory: []string{"oracle.refused_calls", "oracle.state_unchanged", "oracle.accepted_boundary", "oracle.constructor_checks", "refused.nan_quantile", "refused.zero_weight_invalid_value_exact", "refused.merge_mismatch", "refused.merge_mismatch_empty_argument", "constructor.tiny_accuracy", "state.all_weights_underflowed", "refused.merge_mismatch_coarse_mappings", "refused.store_level_reweight"},
+		Mandatory: []string{"oracle.refused_calls", "oracle.state_unchanged", "oracle.accepted_boundary", "oracle.constructor_checks", "refused.nan_quantile", "refused.zero_weight_invalid_value_exact", "refused.merge_mismatch", "refused.merge_mismatch_empty_argument", "constructor.tiny_accuracy", "state.all_weights_underflowed", "refused.merge_mismatch_coarse_mappings", "refused.store_level_reweight", "oracle.refusal_independent_of_history", "refused.merge_after_accepted_near_twin"},
 		Run:       runC13,
 	})
 }
@@ -696,6 +696,50 @@ func runC13(c *core.Ctx) {
 		expect(name, call(name, func() error { return s.MergeWith(other) }))
 		if d := ob.Diff(mon.Observe(other, nil)); d != "" {
 			c.Failf("refused_merge_changed_argument", "the argument of a refused merge changed: %s", d)
+		}
+	}
+	// whether a merge is refused does not depend on what the receiver accepted before: three mappings of one kind
+	// whose bases differ by a few 1e-13 (m0 ~ m1 ~ m2 within the tolerance of Equals, m0 and m2 possibly not).
+	// A fresh m0 sketch gives the reference verdict for merging an m2 sketch; a m0 sketch that merged an m1 sketch
+	// before must give the same one (and stay as it was when it refuses).
+	if r.P(0.3) {
+		kind := r.Intn(3)
+		g0 := m.Gamma
+		d1 := r.LogUniform(3e-13, 9.9e-13)
+		ma, e0 := gen.NewMapGamma(kind, g0, m.Offset)
+		mb, e1 := gen.NewMapGamma(kind, g0*(1+d1), m.Offset)
+		mc, e2 := gen.NewMapGamma(kind, g0*(1+d1)*(1+d1), m.Offset)
+		if e0 == nil && e1 == nil && e2 == nil && ma.Gamma != mb.Gamma && mb.Gamma != mc.Gamma {
+			mk := func(mm *gen.Map, n int) mon.Sketch {
+				k := mon.NewSketch(exact, mm.M, gen.RandPlainStore(r))
+				for i := 0; i < n; i++ {
+					k.I().Add(mm.ClampIn(float64(2 + i)))
+				}
+				return k
+			}
+			var refErr, err01, err error
+			var a mon.Sketch
+			c.Guard("merge chain", func() {
+				refErr = mk(ma, 2).MergeWith(mk(mc, 2))
+				a = mk(ma, 2)
+				err01 = a.MergeWith(mk(mb, 1))
+			})
+			if err01 == nil && !c.Failed() {
+				before := mon.Observe(a, nil)
+				c.Guard("merge chain", func() { err = a.MergeWith(mk(mc, 2)) })
+				c.Count("oracle.refusal_independent_of_history", 1)
+				if refErr != nil {
+					c.Count("refused.merge_after_accepted_near_twin", 1)
+					refused++
+				}
+				if (err == nil) != (refErr == nil) {
+					c.Failf("refusal_depends_on_history:MergeWith", "a sketch with base %v refuses (%v) a sketch with base %v when fresh, but answers %v after having merged a sketch with base %v", ma.Gamma, refErr, mc.Gamma, err, mb.Gamma)
+				} else if err != nil {
+					if d := before.Diff(mon.Observe(a, nil)); d != "" {
+						c.Failf("refused_call_changed_state:MergeWith(after an accepted near twin)", "the receiver of a refused merge changed: %s", d)
+					}
+				}
+			}
 		}
 	}
 	// very coarse mappings (bases from 1e3 to 1e15, accuracy within 1e-15 of one): still different mappings when
